@@ -435,7 +435,7 @@ def write_replay(cid, payload):
     return p
 
 
-def finish(chk, classify):
+def finish(chk, classify, write_evidence=True):
     """Decide, print protocol lines, write evidence, return exit code.
 
     classify(failure_dict) -> id of a known finding (str) or None."""
@@ -502,11 +502,12 @@ def finish(chk, classify):
     cov.update(chk.extra)
     ev = dict(property_id=chk.cid, tier=chk.tier, seed=int(chk.seed), level="proof", coverage=cov,
               assumptions=sorted(set(chk.trusted)), wall_s=round(wall, 2), violations=violations)
-    os.makedirs(EVID, exist_ok=True)
-    evp = os.path.join(EVID, chk.cid + ".json")
-    with open(evp, "w") as f:
-        json.dump(jsonable(ev) if False else ev, f, indent=1, default=str)
-    validate_evidence(evp)
+    if write_evidence:          # a --replay run re-examines one stored input and must not overwrite the evidence of a full run
+        os.makedirs(EVID, exist_ok=True)
+        evp = os.path.join(EVID, chk.cid + ".json")
+        with open(evp, "w") as f:
+            json.dump(ev, f, indent=1, default=str)
+        validate_evidence(evp)
     for ln in lines:
         print(ln)
     print("%s tier=%s seed=%s obligations=%d/%d correspondence_cases=%d disagreements=%d oracle_failures=%d "
